@@ -166,6 +166,9 @@ func (db *DB) sendToWriteCh(entries []*kv.Entry, waitOnThrottle bool) (*request,
 	count := int64(len(entries))
 	for _, e := range entries {
 		size += int64(e.EstimateSize(int(db.opt.ValueThreshold)))
+		if !db.fitsMemTable(e) {
+			return nil, utils.ErrTxnTooBig
+		}
 	}
 	if count >= db.opt.MaxBatchCount || size >= db.opt.MaxBatchSize {
 		return nil, utils.ErrTxnTooBig
@@ -197,6 +200,20 @@ func (db *DB) sendToWriteCh(entries []*kv.Entry, waitOnThrottle bool) (*request,
 	}
 
 	return req, nil
+}
+
+// fitsMemTable reports whether the entry, in the form it is handed to the LSM (inline value
+// or value pointer), fits an empty memtable. The LSM rotates memtables until an entry fits,
+// so one that never can would stall the commit worker, and every later write, forever.
+func (db *DB) fitsMemTable(e *kv.Entry) bool {
+	if db.opt.MemTableSize <= 0 {
+		return true
+	}
+	est := kv.EstimateEncodeSize(e)
+	if !db.shouldWriteValueToLSM(e) {
+		est += len(kv.ValuePtr{}.Encode()) - len(e.Value)
+	}
+	return int64(est) <= db.opt.MemTableSize
 }
 
 // Check(kv.BatchSet(entries))
